@@ -46,7 +46,7 @@ def screen_check(pid, tier, seed, families, rules_note, need_paints=True, level=
         mode = f["mode"]
         if mode == "bfs":
             out, dist, gen = vlib.run_tlc(model, cfg, wd, mode=mode, workers=4 if tier == "quick" else 8)
-            hs = vlib.histories_from(out)
+            hs = vlib.histories_from(out, lazy=True)
         else:
             outs, dist, gen = vlib.run_tlc_sims(model, cfg, wd, mode[1], mode[2], seed)
             hs = [h for o in outs for h in vlib.histories_from(o)]
@@ -69,9 +69,9 @@ def screen_check(pid, tier, seed, families, rules_note, need_paints=True, level=
             samples.append({"family": f["name"], "cfg": hs[len(hs) // 2]["cfg"], "ops": hs[len(hs) // 2]["ops"]})
         per_family.append({"family": f["name"], "mode": str(mode), "histories": len(hs), "records": total, "verdicts": len(bad),
                            "tlc_distinct_states": dist, "tlc_states_generated": gen})
-        byh = {h["h"]: h for h in hs}
+        byh = vlib.by_h(hs)
         for v in bad:
-            h = byh[v["h"]]
+            h = byh(v["h"])
             prefix = h["ops"][:v["i"]]
             all_fail.append(dict(cls="%s/%s" % (v["rule"], v["op"]), rule=v["rule"], n=len(prefix),
                                  kf=kf.classify(h["cfg"], prefix, v),
@@ -306,7 +306,7 @@ def generic_check(pid, tier, seed, gens, driver, monitor, note, assumptions, lev
         cfg = vlib.cfg_text(constants, invariants=["TypeOK"])
         if mode == "bfs":
             out, dist, gen = vlib.run_tlc(model, cfg, wd, workers=4 if tier == "quick" else 8)
-            hs = vlib.histories_from(out)
+            hs = vlib.histories_from(out, lazy=True)
         else:
             outs, dist, gen = vlib.run_tlc_sims(model, cfg, wd, mode[1], mode[2], seed)
             hs = [h for o in outs for h in vlib.histories_from(o)]
@@ -322,9 +322,9 @@ def generic_check(pid, tier, seed, gens, driver, monitor, note, assumptions, lev
         if len(samples) < 3:
             samples.append({"family": name, "behaviour": hs[len(hs) // 2]})
         fams.append({"family": name, "mode": str(mode), "behaviours": len(hs), "records": total, "verdicts": len(bad), "tlc_distinct_states": dist, "tlc_states_generated": gen})
-        byh = {h["h"]: h for h in hs}
+        byh = vlib.by_h(hs)
         for v in bad:
-            h = byh[v["h"]]
+            h = byh(v["h"])
             prefix = h.get("ops", [])[:v["i"]] if "ops" in h else None
             rep = dict(h)
             if prefix is not None:
@@ -532,9 +532,9 @@ def c05(pid, tier, seed):
         fams.append({"family": name, "histories": len(hs), "records": total, "verdicts": len(bad)})
         if len(samples) < 2:
             samples.append({"family": name, "cfg": hs[0]["cfg"], "ops": hs[0]["ops"][:12]})
-        byh = {h["h"]: h for h in hs}
+        byh = vlib.by_h(hs)
         for v in bad:
-            h = byh[v["h"]]
+            h = byh(v["h"])
             fails.append(dict(cls="%s/%s" % (v["rule"], name.split("_")[0]), rule=v["rule"], n=v["i"], kf=kf.classify_c05(h, v),
                               what="rule=%s family=%s step=%d" % (v["rule"], name, v["i"]),
                               replay={"driver": "api", "monitor": "Trace_Throttle", "rule": v["rule"], "history": {"h": 1, "cfg": h["cfg"], "ops": h["ops"][:v["i"]]}}))
